@@ -23,6 +23,9 @@ func runC05(c *mon.Ctx) {
 			c05Concurrent(c, r.Fork(11))
 		}
 		c05KeyFn(c, r.Fork(2))
+		if i%4 == 2 {
+			aliasLengthCase(c, r.Fork(12), "delivered-under-other-identity/alias", true)
+		}
 	})
 }
 
